@@ -355,12 +355,29 @@ func (r *run) callSSA(caller *frame, callpos token.Pos, fn *ssa.Function, args [
 				return nil // external packages initialise lazily
 			}
 		}
-		if m := r.eng.models[name]; m != nil && !r.inModel[name] {
+		if m := r.eng.modelFor(name); m != nil && !r.inModel[name] {
 			// harness model replaces the callee
 			r.noteFunc(m)
 			r.inModel[name] = true
 			defer func() { delete(r.inModel, name) }()
-			return r.callSSA(caller, callpos, m, args, nil)
+			// a model may declare a parameter as an interface where the callee
+			// has a concrete (receiver) type: box the argument accordingly
+			margs := args
+			for i := range args {
+				if i < len(m.Params) && i < len(fn.Params) {
+					if _, want := m.Params[i].Type().Underlying().(*types.Interface); want {
+						if _, is := args[i].(iface); !is {
+							if _, src := fn.Params[i].Type().Underlying().(*types.Interface); !src {
+								if len(margs) == len(args) && &margs[0] == &args[0] {
+									margs = append([]value(nil), args...)
+								}
+								margs[i] = iface{t: fn.Params[i].Type(), v: args[i]}
+							}
+						}
+					}
+				}
+			}
+			return r.callSSA(caller, callpos, m, margs, nil)
 		}
 		if ext := intrinsics[name]; ext != nil {
 			return ext(fr, args)
